@@ -276,6 +276,7 @@ func (cap *commandArgParser) parseEachInput(args redisArgs, input ...respValue) 
 	skippedOptionals := redisArgs{}
 
 	foundMultiple := false
+	multiPending := false // the previous match was a repeatable argument, which may simply have ended
 	started := -1
 
 	for {
@@ -291,6 +292,11 @@ func (cap *commandArgParser) parseEachInput(args redisArgs, input ...respValue) 
 			if !foundMultiple && !arg.Optional {
 				return
 			}
+			if !multiPending && !arg.Optional {
+				// a required argument is missing (a matched one-of token before it does not excuse that)
+				return
+			}
+			multiPending = false
 
 			if arg.Optional && arg.isToken() {
 				// optional value args that have tokens can be reordered
@@ -306,6 +312,7 @@ func (cap *commandArgParser) parseEachInput(args redisArgs, input ...respValue) 
 			}
 
 			ipos += length
+			multiPending = (pms == PARSE_MULTI_VALUE || pms == PARSE_MULTI_ONE_OF_TOKEN)
 
 			switch pms {
 			case PARSE_SINGLE_VALUE, PARSE_ONE_OF_TOKEN:
@@ -335,8 +342,10 @@ func (cap *commandArgParser) parseEachInput(args redisArgs, input ...respValue) 
 			if pms != PARSE_SINGLE_VALUE {
 				foundMultiple = true
 
-				// check recursively if multiple arguments stop here
-				if apos+1 < len(args) {
+				// check recursively if multiple arguments stop here (a one-of token is a single
+				// value: apos already points behind it, and the arguments after it are parsed by
+				// the loop)
+				if pms != PARSE_ONE_OF_TOKEN && apos+1 < len(args) {
 					rightVals, testLength, subValid := cap.parseEachInput(args[apos+1:], input[ipos:]...)
 					if subValid {
 						ipos += testLength
